@@ -147,8 +147,20 @@ impl Hist {
         }
         let mut out = Vec::new();
         let a = self.sut.a();
-        compare(a, &self.model, &mut self.orng, &mut out);
-        compare_class_stats(a, &self.model, &mut out);
+        // the queries are calls of the interface too: a panic inside one of them (in the allocator's own
+        // sources) is an observation for C09; a panic in the monitor itself is a harness error and propagates
+        let (model, orng) = (&self.model, &mut self.orng);
+        if let Err(p) = catch(|| {
+            compare(a, model, orng, &mut out);
+            compare_class_stats(a, model, &mut out);
+        }) {
+            if crate::bufs::panic_in_sut(&p) {
+                out.push(viol(&["C09"], format!("a statistics query (stats / stats_at / tree_stats / validate / is_free) panicked: {p}")));
+                self.dead = true;
+            } else {
+                panic!("monitor panicked during comparison: {p}");
+            }
+        }
         let step = self.log.len();
         let op = self.log.last().map(|o| o.short()).unwrap_or_else(|| "<init>".into());
         for mut x in out {
